@@ -63,7 +63,7 @@ CHECKS["C19"] = dict(
     technique="Coq proof (mutual induction) over hand-written Gallina model + exact vm_compute correspondence",
     design="4/C19")
 CHECKS["C05"] = dict(
-    text=("Theorems (Coq Reals + Coquelicot, 34 obligations) about R-valued Gallina definitions regenerated each run by translate/pyscalar.py from "
+    text=("Theorems (Coq Reals + Coquelicot, 38 obligations) about R-valued Gallina definitions regenerated each run by translate/pyscalar.py from "
           "the six kernels' k bodies, util.distance, the Add/Mul/Pow node arithmetic: each profile equals its documented closed form; the distance "
           "entry is sqrt(|x-y|^2+1e-12), symmetric, >= 1e-6; profile(0)=1, decreasing, values in (0,1]; keval symmetric, pointwise sum/product/"
           "power, inactive dimensions irrelevant, time covariance is the state x time product (structural induction over kexpr, any depth); PSD "
@@ -77,17 +77,20 @@ CHECKS["C05"] = dict(
           "Gram matrices of the Linear and ExpQuad kernels are PROVED positive semi-definite (exponential series + Schur product; "
           "C05_expquad_gram_psd, C05_linear_gram_psd), so are those of RatQuad with alpha = 1 (its default) and with every positive integer alpha "
           "(C05_ratquad_default_gram_psd, C05_ratquad_integer_alpha_gram_psd: 1/u as a double limit of geometric sums of ExpQuad entries), and so is every "
-          "expression tree over them (C05_keval_psd_gaussian_linear, C05_keval_psd_elementary). "
+          "expression tree over them (C05_keval_psd_gaussian_linear, C05_keval_psd_elementary), Pow nodes with a positive integer exponent over an entrywise "
+          "positive operand included (C05_keval_psd_elementary_pow, C05_pow_node_psd, C05_kpos_entrywise_positive: Rpower lk (INR (S n)) = lk^(S n) is an iterated Schur product). "
           "PARTIAL: for Matern32, Matern52, Exponential and RatQuad with non-integer alpha positive semi-definiteness (Bochner / Schoenberg scale mixtures) remains the "
-          "hypothesis of C05_keval_psd_bochner_only_partial, tested numerically as support only; Pow nodes are outside psd_shape; RatQuad "
+          "hypothesis of C05_keval_psd_bochner_only_partial, tested numerically as support only; Pow nodes with non-integer exponents or operands that can be non-positive (Linear leaves) are outside the closure; RatQuad "
           "docstring exponent typo noted."),
     technique="Coq real-analysis proof over translator-generated definitions + Interval-tactic enclosure at every sampled input",
     design="4/C05")
 CHECKS["C11"] = dict(
-    text=("Theorems (16 obligations): is_derive of each generated radial profile equals the generated k_grad coefficient; the distance-gradient "
+    text=("Theorems (19 obligations): is_derive of each generated radial profile equals the generated k_grad coefficient; the distance-gradient "
           "entry equals the true partial derivative times dist/(dist+1e-12) with that factor in [1-1e-6,1); exact zeros at coincident points and "
           "in inactive dimensions; every denominator >= 1e-6; kgrad_correct by structural induction over kernel expressions of any depth with any "
-          "active_dims form per node, scalar operands and powers of positive bases. ~960 Interval goals per run enclose the model's gradient "
+          "active_dims form per node, scalar operands and powers of positive bases; the positivity premise of Pow operands is discharged for ALL "
+          "points by a syntactic criterion (C11_kgrad_correct_all_points, C11_wfs_implies_wfk: wfs/kpos of thm/AKPos.v - stationary leaves, sums, "
+          "products, + c >= 0, * c > 0, Pow). ~960 Interval goals per run enclose the model's gradient "
           "entries at the implementation's inputs; comparison with jax.jacfwd and finite differences as support."),
     note=("Trusted: as C05. Powers of a non-positive base use Rpower in the model and are covered by the searcher only. The autodiff "
           "comparison carries a 1e-7 relative floor that is an estimate, not derived (support only)."),
